@@ -1,4 +1,4 @@
-//go:build verif && (all || c05)
+//go:build verif && (all || c05 || c06)
 
 package main
 
@@ -409,6 +409,9 @@ func c05GenIDs(r *rng) []identity.AgentID {
 	if r.chance(3) {
 		n = r.pick(254, 255)
 	}
+	if r.chance(1) { // over the 1-byte count
+		n = r.pick(256, 257)
+	}
 	l := make([]identity.AgentID, n)
 	for i := range l {
 		l[i] = c05GenID(r)
@@ -432,10 +435,21 @@ func c05GenU64(r *rng) uint64 {
 }
 func c05GenU16(r *rng) uint16 { return uint16(c05GenU64(r)) }
 func c05GenU8(r *rng) uint8   { return uint8(c05GenU64(r)) }
+// c05Big: low-probability stream of large / boundary sizes
+func c05Big(r *rng, pct int, sizes ...int) (int, bool) {
+	if r.chance(pct) {
+		return sizes[r.intn(len(sizes))], true
+	}
+	return 0, false
+}
+
 func c05GenStr(r *rng) string {
 	n := r.pick(0, 0, 1, 3, 5, 8, 12, 40)
 	if r.chance(6) {
 		n = r.pick(254, 255)
+	}
+	if r.chance(1) { // over the 1-byte length field: the encoder wraps the length byte
+		n = r.pick(256, 257, 300)
 	}
 	b := r.bytes(n)
 	if r.chance(70) {
@@ -445,6 +459,15 @@ func c05GenStr(r *rng) string {
 	}
 	return string(b)
 }
+// data field sizes: mostly small, with a stream of boundary values around 255/256, 1472, 4096,
+// 16384 and the 16-bit length field
+func c05DataLen(r *rng) int {
+	if n, ok := c05Big(r, 12, 255, 256, 257, 1472, 1473, 4095, 4096, 4097, 16383, 16384, 16385, 65535, 65536, 65537); ok {
+		return n
+	}
+	return r.pick(0, 0, 1, 2, 20, 56, 300, 2000)
+}
+
 func c05GenKey(r *rng) (k [32]byte) {
 	if !r.chance(10) {
 		copy(k[:], r.bytes(32))
@@ -534,6 +557,9 @@ func c05GenWdRoute(r *rng) protocol.Route {
 func c05GenRouteCount(r *rng) int {
 	if r.chance(3) {
 		return r.pick(200, 255)
+	}
+	if r.chance(2) { // count byte wraps (C06)
+		return r.pick(256, 257, 300, 511, 512)
 	}
 	return r.pick(0, 1, 1, 2, 3, 7)
 }
@@ -816,7 +842,7 @@ func init() {
 			}
 			return e, nil
 		},
-		gen: func(r *rng) any { return &protocol.EncryptedData{Encrypted: r.chance(50), Data: r.bytes(r.pick(0, 1, 17, 300))} }})
+		gen: func(r *rng) any { return &protocol.EncryptedData{Encrypted: r.chance(50), Data: r.bytes(c05DataLen(r))} }})
 	c05Add(&c05Kind{name: "path",
 		from: func(r *c05R) any { return r.ids() }, to: func(w *c05W, x any) { w.ids(x.([]identity.AgentID)) },
 		enc: func(x any) []byte { return protocol.EncodePath(x.([]identity.AgentID)) },
@@ -855,7 +881,7 @@ func init() {
 		enc: func(x any) []byte { return x.(*protocol.ControlRequest).Encode() },
 		dec: func(b []byte) (any, error) { return protocol.DecodeControlRequest(b) },
 		gen: func(r *rng) any {
-			return &protocol.ControlRequest{RequestID: c05GenU64(r), ControlType: c05GenU8(r), TargetAgent: c05GenID(r), Path: c05GenIDs(r), Data: r.bytes(r.pick(0, 0, 1, 20, 300, 2000))}
+			return &protocol.ControlRequest{RequestID: c05GenU64(r), ControlType: c05GenU8(r), TargetAgent: c05GenID(r), Path: c05GenIDs(r), Data: r.bytes(c05DataLen(r))}
 		}})
 	c05Add(&c05Kind{name: "ctrlresp",
 		from: func(r *c05R) any {
@@ -871,8 +897,8 @@ func init() {
 		enc: func(x any) []byte { return x.(*protocol.ControlResponse).Encode() },
 		dec: func(b []byte) (any, error) { return protocol.DecodeControlResponse(b) },
 		gen: func(r *rng) any {
-			n := r.pick(0, 0, 1, 20, 300, 2000)
-			if r.chance(4) {
+			n := c05DataLen(r)
+			if r.chance(6) {
 				n = r.pick(16371, 16372, 16373, 20000) // clipped at MaxPayloadSize-12
 			}
 			return &protocol.ControlResponse{RequestID: c05GenU64(r), ControlType: c05GenU8(r), Success: r.chance(50), Data: r.bytes(n)}
@@ -893,7 +919,7 @@ func init() {
 		dec: func(b []byte) (any, error) { return protocol.DecodeUDPDatagram(b) },
 		gen: func(r *rng) any {
 			at, addr := c05GenAddr(r, true)
-			return &protocol.UDPDatagram{AddressType: at, Address: addr, Port: c05GenU16(r), Data: r.bytes(r.pick(0, 1, 20, 1472, 1500))}
+			return &protocol.UDPDatagram{AddressType: at, Address: addr, Port: c05GenU16(r), Data: r.bytes(c05DataLen(r))}
 		}})
 	// ICMP
 	c05Add(&c05Kind{name: "icmpopen",
@@ -934,7 +960,7 @@ func init() {
 		enc: func(x any) []byte { return x.(*protocol.ICMPEcho).Encode() },
 		dec: func(b []byte) (any, error) { return protocol.DecodeICMPEcho(b) },
 		gen: func(r *rng) any {
-			return &protocol.ICMPEcho{Identifier: c05GenU16(r), Sequence: c05GenU16(r), IsReply: r.chance(50), SrcIP: r.bytes(r.pick(0, 4, 16, 3)), Data: r.bytes(r.pick(0, 1, 56, 1472))}
+			return &protocol.ICMPEcho{Identifier: c05GenU16(r), Sequence: c05GenU16(r), IsReply: r.chance(50), SrcIP: r.bytes(r.pick(0, 4, 16, 3, 255)), Data: r.bytes(c05DataLen(r))}
 		}})
 	// Sleep / Wake
 	c05Add(&c05Kind{name: "sleep",
@@ -1007,7 +1033,11 @@ func init() {
 		dec: func(b []byte) (any, error) { return protocol.DecodeQueuedState(b) },
 		gen: func(r *rng) any {
 			q := &protocol.QueuedState{}
-			for i, c := 0, r.pick(0, 0, 1, 2, 3); i < c; i++ {
+			nr := r.pick(0, 0, 1, 2, 3)
+			if r.chance(4) {
+				nr = r.pick(40, 100)
+			}
+			for i := 0; i < nr; i++ {
 				q.Routes = append(q.Routes, *c05GenAdv(r))
 			}
 			for i, c := 0, r.pick(0, 0, 1, 2); i < c; i++ {
@@ -1154,7 +1184,7 @@ func c05Mutate(w *bufio.Writer, r *rng, k *c05Kind, b []byte, perBase int, exhau
 
 func c05Gen(w *bufio.Writer, seed int64, tier string) {
 	r := newRng(seed)
-	nStruct, perBase, nRandom, nExh := 14, 8, 10, 1
+	nStruct, perBase, nRandom, nExh := 24, 8, 16, 1
 	if tier == "thorough" {
 		nStruct, perBase, nRandom, nExh = 300, 12, 300, 12
 	}
